@@ -32,7 +32,7 @@ func init() {
 
 type sField struct {
 	goName, local, kind, shape, elem string
-	omitempty                       bool
+	omitempty                        bool
 }
 
 func typeShape(e ast.Expr) (shape, elem string) {
